@@ -433,7 +433,11 @@ func loadHVtmx(hheaRaw, htmxRaw []byte, numGlyphs int) (*tables.Hhea, tables.Hmt
 		return nil, tables.Hmtx{}, err
 	}
 
-	hmtx, _, err := tables.ParseHmtx(htmxRaw, int(hhea.NumOfLongMetrics), numGlyphs-int(hhea.NumOfLongMetrics))
+	metricsCount := int(hhea.NumOfLongMetrics)
+	if metricsCount > numGlyphs { // invalid font: ignore the additional metrics
+		metricsCount = numGlyphs
+	}
+	hmtx, _, err := tables.ParseHmtx(htmxRaw, metricsCount, numGlyphs-metricsCount)
 	if err != nil {
 		return nil, tables.Hmtx{}, err
 	}
